@@ -436,6 +436,26 @@ def has_param(d, name=None, idx=None):
     return False
 
 
+ARITH = ('Add', 'Sub', 'Mul', 'Div', 'Rem', 'Shl', 'Shr')
+_ARITH_CALLS = ('saturating_add', 'saturating_sub', 'wrapping_add', 'wrapping_sub', 'checked_add', 'checked_sub', 'saturating_mul', 'checked_mul')
+
+
+def const_offsets(d):
+    """(op, constant) for every arithmetic node of the descriptor with an integer literal operand —
+    `x + 1`, `x.saturating_sub(2)`, `x * 3` — the shape an off-by-N edit of a guard operand takes"""
+    out = set()
+    for x in walk(d):
+        if x[0] == 'bin' and x[1] in ARITH:
+            for y in (x[2], x[3]):
+                if isinstance(y, tuple) and y and y[0] == 'const' and y[1] == 'int' and not y[3]:
+                    out.add((x[1], str(y[2])))
+        elif x[0] == 'call' and x[1].rsplit('::', 1)[-1] in _ARITH_CALLS:
+            for y in x[3]:
+                if isinstance(y, tuple) and y and y[0] == 'const' and y[1] == 'int' and not y[3]:
+                    out.add((x[1].rsplit('::', 1)[-1], str(y[2])))
+    return out
+
+
 def has_upvar(d, name):
     return any(x[0] == 'upvar' and x[1] == name for x in walk(d))
 
